@@ -8,6 +8,7 @@ their multiset, equal the model's; Alarm.triggers agrees; missing/invalid inform
 documented error classes, and only where information is really missing or invalid.
 """
 import itertools
+import re
 from datetime import date, datetime, timedelta, timezone
 
 from mc import env
@@ -127,10 +128,13 @@ def run_case(case):
     _, provider, path, cname, sk, ek, alarms = case
     env.use_provider(provider)
     comp, start, end, dur, specs = build(case)
-    if path == "parsed":
+    if path in ("parsed", "parsed+"):
         cls = Event if cname == "VEVENT" else Todo
-        comp = cls.from_ical(comp.to_ical())
-    if path == "parsed" and sk == "zoned-dateutil":
+        data = comp.to_ical()
+        if path == "parsed+":  # RFC 5545: dur-value = (["+"] / "-") "P" ... - the same text with explicit plus signs
+            data = re.sub(rb"((?:TRIGGER|DURATION)[^:\r\n]*:)(P)", rb"\1+\2", data)
+        comp = cls.from_ical(data)
+    if path in ("parsed", "parsed+") and sk == "zoned-dateutil":
         # after parsing the value carries the ACTIVE provider's tzinfo for Europe/Berlin: "plus" is that provider's addition
         start = tzp.localize(start.replace(tzinfo=None), "Europe/Berlin")
         if end is not None:
@@ -192,7 +196,7 @@ REDUCED = [(t, r, rd) for t in ("-PT15M", "PT5H", "-P1D", "abs-utc") for r in (N
 
 def run(ctx):
     ctx.rule = ("E-enum: {VEVENT,VTODO} x 8 start kinds x 5 end kinds (incl. a zero DURATION) x all single alarms TRIGGER(8) x RELATED(5) x "
-                "(REPEAT,DURATION)(8, incl. a zero DURATION) x {API-built, parsed} x {zoneinfo, pytz}; plus all ordered pairs over a reduced menu of "
+                "(REPEAT,DURATION)(8, incl. a zero DURATION) x {API-built, parsed, parsed with explicit plus signs on durations} x {zoneinfo, pytz}; plus all ordered pairs over a reduced menu of "
                 f"{len(REDUCED)} alarm shapes" + ("" if ctx.quick else " and all triples over 8 shapes") +
                 ". non-trivial = at least one alarm has a TRIGGER.")
     ctx.bounds = {"starts": STARTS, "ends": ENDS, "triggers": TRIGGERS, "related": [str(r) for r in RELATED],
@@ -203,12 +207,12 @@ def run(ctx):
 
     def gen():
         for provider in env.PROVIDERS:
-            for path in ("api", "parsed"):
+            for path in ("api", "parsed", "parsed+"):
                 for cname in ("VEVENT", "VTODO"):
                     for sk in STARTS:
                         for ek in ENDS:
                             for t in TRIGGERS:
-                                if path == "parsed" and t == "abs-zoned":
+                                if path != "api" and t == "abs-zoned":
                                     continue
                                 for r in RELATED:
                                     for rd in REPDUR:
